@@ -38,7 +38,7 @@ def main():
         })
     man = {
         'version': 1,
-        'setup_cmd': 'cd lean && lake build',
+        'setup_cmd': './setup.sh',
         'hooks': {
             'guard': 'PSIAUDIO_VERIF',
             'enable': 'no hooks are compiled into /repo: the harness drives public APIs in-process with PYTHONPATH=/repo and reads sources with ast',
